@@ -888,6 +888,9 @@ def pymethod(ex, o, name, args, kw):
                 except ValueError:
                     raise PyRaise("ValueError", "str." + name)
         if name == "join":
+            if isinstance(args[0], GenExp):
+                # join(f(x) for x in xs) is join([f(x) for x in xs]): evaluate the generator like the comprehension
+                args = [ex.iterate(args[0])] + list(args[1:])
             if hasattr(args[0], "sym_join"):
                 return args[0].sym_join(ex, o)
             if isinstance(args[0], SymSeq):
